@@ -44,13 +44,47 @@ func tagFor(n *ShapeNode) reflect.StructTag {
 		return reflect.StructTag(fmt.Sprintf(`cust:"c%d,arg=a%d"`, n.ID, n.ID))
 	case "foreign":
 		return reflect.StructTag(fmt.Sprintf(`json:"j%d"`, n.ID))
+	case "prefix":
+		return reflect.StructTag(fmt.Sprintf(`prefix:"k%d"`, n.ID))
+	case "wire":
+		return `wire:""`
+	case "func":
+		return `func:"ScanMark"`
+	case "logger":
+		return `logger:""`
 	}
 	return ""
 }
 
+// components the wire / func leaves resolve to
+type scanDep struct{ name string }
+
+func (d *scanDep) Naming() string { return d.name }
+
+type scanMarked struct{}
+
+func (*scanMarked) ScanMark() {}
+
+type scanMarker interface{ ScanMark() }
+
+func leafType(n *ShapeNode) reflect.Type {
+	switch n.Tag {
+	case "wire":
+		return reflect.TypeOf(&scanDep{})
+	case "func":
+		return reflect.TypeOf((*scanMarker)(nil)).Elem()
+	case "logger":
+		return reflect.TypeOf((*syslog.Logger)(nil)).Elem()
+	}
+	return reflect.TypeOf("")
+}
+
 func typeOf(n *ShapeNode) reflect.Type {
 	if n.K == "leaf" {
-		return reflect.TypeOf("")
+		if !n.Exp {
+			return reflect.TypeOf("")
+		}
+		return leafType(n)
 	}
 	var t reflect.Type
 	if isBlock(n) {
@@ -153,7 +187,7 @@ func runShape(shape []ShapeNode) map[string]any {
 	cfg := map[string]any{}
 	walkLeaves(shape, root.Elem(), func(n *ShapeNode, fv reflect.Value, reachable bool) {
 		cfg[fmt.Sprintf("k%d", n.ID)] = fmt.Sprintf("v%d", n.ID)
-		if reachable && fv.CanSet() {
+		if reachable && fv.CanSet() && fv.Kind() == reflect.String {
 			fv.SetString(fmt.Sprintf("init%d", n.ID))
 		}
 	})
@@ -169,21 +203,27 @@ func runShape(shape []ShapeNode) map[string]any {
 			}
 		}()
 		if err := app.NewApp().Run(app.LogLevel(syslog.LvPanic), app.SetConfigLoader(loader.NewRawLoader(y)),
-			app.SetComponents(root.Interface(), rec)); err != nil {
+			app.SetComponents(root.Interface(), rec, &scanDep{"scan-dep"}, &scanMarked{})); err != nil {
 			ok = false
 		}
 	}()
 	leaves := []map[string]any{}
 	walkLeaves(shape, root.Elem(), func(n *ShapeNode, fv reflect.Value, reachable bool) {
 		val := "nil"
-		if reachable {
-			val = fv.String()
-		}
 		init := fmt.Sprintf("init%d", n.ID)
-		if !reachable {
+		if reachable && fv.Kind() == reflect.String {
+			val = fv.String()
+			if !fv.CanSet() {
+				init = ""
+			}
+		} else if reachable { // pointer / interface leaves: only whether something was injected
+			init = "unset"
+			val = "unset"
+			if !fv.IsNil() {
+				val = "set"
+			}
+		} else {
 			init = "nil"
-		} else if !fv.CanSet() {
-			init = ""
 		}
 		leaves = append(leaves, map[string]any{"id": n.ID, "val": val, "init": init})
 	})
